@@ -39,7 +39,7 @@ pub fn universe(prop: &'static str, tier: Tier) -> Universe {
     u.node_names = s(&["n1", "n2"]);
     u.define_names = vec![];
     u.names = classify_names(&["a", "b", "n", "x", "y", "r", "deep", "p", "q", "m", "k", "e1", "e2"]);
-    u.max_nodes = tier.pick(6, 7);
+    u.max_nodes = 7;
     u.max_pkgs = 3;
     u.ops = ["Instantiate", "Alias", "Import", "SetArg", "Export", "SetName"].into_iter().collect();
     u
@@ -85,8 +85,8 @@ pub fn run(args: &[String]) {
     }
     let tier = ctx.tier();
     let u = universe("C02", tier);
-    let depth = tier.pick(3, 4);
-    let (stats, found) = bfs(&u, &seeds(), depth, Some(&wiring_and_interface_check), tier.pick(400_000, 6_000_000), None);
+    let depth = tier.pick(4, 5);
+    let (stats, found) = bfs(&u, &seeds(), depth, Some(&wiring_and_interface_check), tier.pick(2_000_000, 30_000_000), None);
     for f in found {
         let mut case = f.case;
         case["tier"] = json!(tier.as_str());
